@@ -136,7 +136,7 @@ int main(int argc, char **argv)
      and second element (-1 = none) in [E1LO,E1HI] (ORDERED: the planner's answer depends on list order), and every split
      point R|X.  A run is kept to <= ~70 requests: CBMC's symbolic execution time grows quadratically with the number of
      planner calls in one run (measured 12 s / 51 s / 174 s for 69 / 138 / 276 requests).  With SORTED only increasing
-     sequences are taken (bounded variant for requests beyond tolerance). */
+     (SORTED == 2: only decreasing) sequences are taken (bounded variants for requests beyond tolerance). */
 #ifndef E0LO
 #define E0LO 0
 #define E0HI (N - 1)
@@ -156,7 +156,11 @@ int main(int argc, char **argv)
           for (int x = 0; x < len; x++) for (int y = x + 1; y < len; y++) if (seq[x] == seq[y]) dup = 1;
           if (dup) continue;
 #ifdef SORTED
+#if SORTED == 2   /* decreasing sequences: the mirror-image order of the SORTED == 1 variant */
+          int sorted = 1; for (int x = 0; x + 1 < len; x++) if (seq[x] < seq[x + 1]) sorted = 0;
+#else
           int sorted = 1; for (int x = 0; x + 1 < len; x++) if (seq[x] > seq[x + 1]) sorted = 0;
+#endif
           if (!sorted) continue;
 #endif
           for (int nr = 1; nr <= len; nr++) { if (check_request(seq, len, nr) == 0) nsucc++; else nfail++; }
